@@ -1000,4 +1000,32 @@ def corpus(r):
                 g.emit({"op": "binary", "fn": fn, "a": t, "b": c})
                 g.emit({"op": "binary", "fn": fn, "a": c, "b": t})
         out.append((g.program, fam))
+    # 8. Integrate that sums batch inputs of the measure together with the real variable
+    for _ in range(2):
+        g = Gen(r, family="log", max_event=0, real_vars=False)
+        n = r.choice(["x", "z"])
+        batch = [[b, g.sizes[b]] for b in r.sample(NAMES[:3], r.choice([1, 2]))]
+        nb_total = int(np.prod([sz for _, sz in batch]))
+        leaf = g.emit(
+            {
+                "op": "gaussian",
+                "batch": batch,
+                "reals": [[n, []]],
+                "mats": [round(r.gauss(0, 1), 3) for _ in range(nb_total)],
+                "locs": [round(r.gauss(0, 1), 3) for _ in range(nb_total)],
+            }
+        )
+        if leaf:
+            integrands = [
+                g.emit({"op": "var", "name": n, "domain": ["real"]}),
+                g.emit({"op": "affine", "name": n, "domain": ["real"], "scale": round(r.uniform(0.5, 2.0), 2), "shift": round(r.uniform(-1, 1), 2)}),
+                leaf,
+            ]
+            for integrand in integrands:
+                if not integrand:
+                    continue
+                for k in range(0, len(batch) + 1):
+                    for sub in itertools.combinations([b for b, _ in batch], k):
+                        g.emit({"op": "integrate", "a": leaf, "b": integrand, "vars": [n] + list(sub)})
+        out.append((g.program, "log"))
     return [(p, f) for p, f in out if len(p) >= 2]
